@@ -1,0 +1,35 @@
+//go:build verif
+
+package helpers
+
+// Contracts for govc (see /verif/DESIGN.md). Comment-only file.
+
+//@ ghost read_errors(iface) int
+//@ ghost matched_lines(iface) int
+//@ ghost parse_errors(iface) int
+//@ ghost exit_code(iface) int
+
+//@ iface rare/cmd/helpers.BatcherErrors.ReadErrors
+//@   pure
+//@   ensures result == read_errors(this)
+//@ iface rare/cmd/helpers.ExtractorSummary.MatchedLines
+//@   pure
+//@   ensures result == matched_lines(this) && result >= 0
+//@ iface rare/cmd/helpers.AggregationErrors.ParseErrors
+//@   pure
+//@   ensures result == parse_errors(this) && result >= 0
+
+//@ extern github.com/urfave/cli/v2.Exit
+//@   params (message, exitCode)
+//@   pure
+//@   ensures result != nil && exit_code(result) == exitCode
+
+// C06: exit status precedence. Read errors => 2; else parse errors (when an aggregator exists) => 2;
+// else nothing matched => 1; else success (nil).
+//@ func DetermineErrorState
+//@   requires b != nil && e != nil
+//@   pure
+//@   ensures read_errors(b) > 0 ==> result != nil && exit_code(result) == 2
+//@   ensures read_errors(b) <= 0 && agg != nil && parse_errors(agg) > 0 ==> result != nil && exit_code(result) == 2
+//@   ensures read_errors(b) <= 0 && !(agg != nil && parse_errors(agg) > 0) && matched_lines(e) == 0 ==> result != nil && exit_code(result) == 1
+//@   ensures read_errors(b) <= 0 && !(agg != nil && parse_errors(agg) > 0) && matched_lines(e) != 0 ==> result == nil
